@@ -482,7 +482,69 @@ theorem clone_keeps_holders (s : St) (disk : List DiskEnt) :
     (∀ a h, Holds (cloneFork s disk) a h ↔ Holds s a h) ∧ Fresh (cloneFork s disk) :=
   ⟨fun a h => cloneFork_holds s disk a h, ⟨rfl, rfl⟩⟩
 
+/-- **args_present_on_one_disk.**  All forks over ONE file system
+(`sharedDisk`: an entry is gone as soon as it lies at or below a path ANY fork
+has removed).  With the forks laid out as Martian lays them out (`Layout`:
+every fork's entries inside its own directory, the directories of different
+forks not inside one another, ids unique — distinctness of the fork
+directories of a node is `forkDir_injective` of Props/C11.lean; that they do
+not nest is assumed here), under every global history: what the argument of a
+holder that is not a completed consumer references in fork `q` is still on
+that one disk — no pass of `q` itself (the directory of a kept file is not
+removed: `refs_mono`) and no pass of any other fork takes it.  `hsep`: the
+entries below files/ are not below temp entries. -/
+theorem args_present_on_one_disk (dir : ForkId → Path) (fs : List PFork) (evs : List GEv)
+    (lay : Layout dir fs) (q : PFork) (hq : q ∈ fs) (ok : CfgOK q.cfg q.st) (fr : Fresh q.st)
+    (hv : q.cfg.volatile = true)
+    (hsep : ∀ g ∈ q.st.disk, isTmp g.kind = true → ∀ d ∈ q.st.disk, isTmp d.kind = false →
+      pathIsInside d.path g.path = false)
+    (a : Arg) (h : Holder) (hh : Holds q.st a h)
+    (hn : ∀ n, h = some n → n ∉ (run q.cfg q.st (proj q.id evs)).doneNodes) :
+    ∀ d ∈ q.st.disk, isTmp d.kind = false → refs q.cfg a d.path = true → d ∈ sharedDisk fs evs := by
+  intro d hd ht hr
+  unfold sharedDisk
+  rw [List.mem_filter]
+  refine ⟨List.mem_flatMap.mpr ⟨q, hq, hd⟩, ?_⟩
+  rw [Bool.not_eq_true', List.any_eq_false]
+  intro f hf
+  rw [Bool.not_eq_true, List.any_eq_false]
+  intro g hg
+  rw [Bool.not_eq_true]
+  by_cases hid : f.id = q.id
+  · have e := lay.uniq f hf q hq hid
+    subst e
+    have i := (Inv.init f.cfg f.st fr).run ok hv (proj f.id evs)
+    have hg0 : g ∈ f.st.disk := i.rsub g hg
+    cases hin : pathIsInside d.path g.path with
+    | false => rfl
+    | true =>
+      exfalso
+      cases hgt : isTmp g.kind with
+      | true => have := hsep g hg0 hgt d hd ht; rw [hin] at this; cases this
+      | false =>
+        have hrg : refs f.cfg a g.path = true :=
+          refs_mono (ok.cleanD d hd) (ok.cleanD g hg0) (ok.noDbl d hd) (ok.noDbl g hg0) (ok.cleanF a) hin hr
+        obtain ⟨m, e, hm⟩ := i.safe g hg hgt a h hh hrg
+        exact hn m e hm
+  · exact no_cross_fork_removal lay evs hf hq hid g hg d hd
+
 /-! ### non-vacuity -/
+
+/-- two forks on one disk in their own directories: a history in which both run their passes;
+`P2` completes its consumer, `P1` does not; `P1`'s held files are on the shared disk -/
+example :
+    let c1 : Cfg := { volatile := true, strict := true, splits := false
+                      argNames := [("a", ["/ps/P/fork1/files/a".toList])], argFiles := [("a", ["/ps/P/fork1/files/a".toList])]
+                      initArgs := [("a", [some "C"])], initPost := [("C", ["a"])] }
+    let c2 : Cfg := { c1 with argNames := [("a", ["/ps/P/fork2/files/a".toList])], argFiles := [("a", ["/ps/P/fork2/files/a".toList])] }
+    let s1 : St := { fileArgs := [("a", [some "C"])], postNodes := [("C", ["a"])],
+                     disk := [⟨"/ps/P/fork1/files/a".toList, 1, .out, [], 7⟩, ⟨"/ps/P/fork1/files/junk".toList, 2, .out, [], 8⟩] }
+    let s2 : St := { s1 with disk := [⟨"/ps/P/fork2/files/a".toList, 1, .out, [], 9⟩] }
+    let fs : List PFork := [⟨"P.fork1", c1, s1⟩, ⟨"P.fork2", c2, s2⟩]
+    let evs : List GEv := [.fork "P.fork1" .cacheMap, .fork "P.fork2" .cacheMap, .fork "P.fork1" .kill, .fork "P.fork2" .kill]
+    (sharedDisk fs evs).map (·.path) = ["/ps/P/fork1/files/a".toList, "/ps/P/fork2/files/a".toList] ∧
+    (sharedDisk fs (evs ++ [.nodeDone "C", .fork "P.fork2" .kill])).map (·.path) = ["/ps/P/fork1/files/a".toList] := by
+  decide
 
 /-- a nested tree: `TOP` calls `P`, the sub-pipeline `SUB` (not top-level, retaining `P.keep`)
 with the consumers `C1` (bound to a split of `P.xs`) and `C2` (bound to the struct field
